@@ -149,7 +149,7 @@ def check_c07(r, ex, stats):
                 cls + "/crash-count")
     if r.outcome == "raised":
         if not r.exc_injected:
-            if r.model_failed and isinstance(r.exc, np.linalg.LinAlgError):
+            if isinstance(r.exc, np.linalg.LinAlgError) and (r.model_failed or ex.singular_in_model(r)):
                 stats["discard-singular"] += 1  # the undisturbed trajectory is singular too
             else:
                 bad("T0", "call raised %s on admissible input" % _unexpected_exception(r))
@@ -385,6 +385,10 @@ def check_c08(r, ex, stats):
             break
     if r.kind == "step":
         return out
+    # ---- P9: monitor dictionaries that are not part of this call stay untouched ------
+    stats["P9"] += 1
+    if r.mon_foreign:
+        bad("P9", "the call changed %s" % "; ".join(r.mon_foreign[:3]), cls + "/monitors")
     tr = r.trace
     if isinstance(r.exc, SimBudget):
         return out
@@ -392,6 +396,9 @@ def check_c08(r, ex, stats):
         stats["discard-singular"] += 1
         return out
     if r.outcome == "raised" and not r.exc_injected:
+        if isinstance(r.exc, np.linalg.LinAlgError) and ex.singular_in_model(r):
+            stats["discard-singular"] += 1
+            return out
         bad("P0", "call raised %s on admissible input" % _unexpected_exception(r))
         return out
     full = tr.full_steps()
